@@ -1,21 +1,48 @@
 //! `gen-trace`: run randomly generated programs (larger than the exhaustive
 //! slices) on the real engine with the recording hooks on, and write the
 //! executions as ndjson for validation by TraceSolver.tla.
+//!
+//! Program families (all terminating: stratified, or structurally recursive over finite data):
+//!   0  stratified programs over unary/binary facts: calls, =, comparisons, not, print, cut, fail,
+//!      nested conjunction / disjunction
+//!   1  the list library (mem, app, len, rev, last, both + count/append built-ins) with random
+//!      finite lists (nested and empty elements) in the queries
+//!   2  integer facts with arithmetic function terms and numeric comparisons in bodies
+//!   3  structured heads: complex-term and list-pattern arguments, binary predicates, shared variables,
+//!      anonymous variables, repeated clause variable names
+//!   4  cut-heavy: `!` at random positions of conjunctions and disjunctions, called predicates that cut,
+//!      later clauses that succeed / print
+//!
+//! The recorder runs in a worker process: a panic is recorded as a `panic` event, a dead worker
+//! (stack overflow, abort) as `crash`, a worker that makes no progress as `hang`; the trace
+//! specification accepts those only for programs outside the claimed fragment.
 
 use crate::capture;
-use crate::solve::{build_kb, run_query};
+use crate::solve::build_kb;
 use crate::term::*;
 use rand::rngs::StdRng;
 use rand::{Rng, SeedableRng};
 use serde_json::{json, Value};
 use std::io::Write;
+use std::sync::atomic::{AtomicUsize, Ordering};
+use std::sync::Arc;
 use suiron::*;
 
 fn atom(s: &str) -> Value { json!({"k": "atom", "s": s}) }
+fn int(n: i64) -> Value { json!({"k": "int", "n": n, "e": 0}) }
 fn var(s: &str) -> Value { json!({"k": "var", "n": 0, "s": s}) }
+fn anon() -> Value { json!({"k": "anon"}) }
 fn cx(f: &str, a: Vec<Value>) -> Value { json!({"k": "cx", "s": f, "a": a}) }
+fn func(f: &str, a: Vec<Value>) -> Value { json!({"k": "fn", "s": f, "a": a}) }
+fn list(a: Vec<Value>) -> Value { json!({"k": "list", "a": a, "t": []}) }
+fn list_t(a: Vec<Value>, t: Value) -> Value { json!({"k": "list", "a": a, "t": [t]}) }
 fn call(t: Value) -> Value { json!({"g": "call", "t": t}) }
 fn bip(f: &str, a: Vec<Value>) -> Value { json!({"g": "bip", "f": f, "a": a}) }
+fn and(gs: Vec<Value>) -> Value { json!({"g": "and", "gs": gs}) }
+fn or(gs: Vec<Value>) -> Value { json!({"g": "or", "gs": gs}) }
+fn not(g: Value) -> Value { json!({"g": "not", "gs": [g]}) }
+fn fact(h: Value) -> Value { json!({"head": h, "body": {"g": "nil"}}) }
+fn rule(h: Value, b: Value) -> Value { json!({"head": h, "body": b}) }
 
 const ATOMS: [&str; 3] = ["a", "b", "c"];
 const VARS: [&str; 3] = ["$X", "$Y", "$Z"];
@@ -24,103 +51,332 @@ struct Gen { rng: StdRng }
 impl Gen {
     fn pick<'a>(&mut self, xs: &'a [&'a str]) -> &'a str { xs[self.rng.gen_range(0..xs.len())] }
     fn arg(&mut self) -> Value { if self.rng.gen_bool(0.6) { var(self.pick(&VARS)) } else { atom(self.pick(&ATOMS)) } }
+
+    // ---------------------------------------------------------------- family 0 (and 4)
     /// a literal of a clause of level `lvl` (calls go to lower levels only: stratified, terminating)
-    fn literal(&mut self, lvl: usize, allow_cut: bool) -> Value {
+    fn literal(&mut self, lvl: usize, cut_pct: u32) -> Value {
         let r = self.rng.gen_range(0..100);
-        if r < 45 {
+        if r < cut_pct { return bip("!", vec![]); }
+        let r = self.rng.gen_range(0..100);
+        if r < 48 {
             let callee = self.rng.gen_range(0..=lvl);            // 0 = base facts
             if callee == 0 {
                 if self.rng.gen_bool(0.7) { call(cx(self.pick(&["q", "r"]), vec![self.arg()])) }
                 else { call(cx("s", vec![self.arg(), self.arg()])) }
-            } else { call(cx(&format!("d{}", callee - 1 + 1 - 1), vec![self.arg()])) }
-        } else if r < 60 { bip("unify", vec![var(self.pick(&VARS)), self.arg()]) }
-        else if r < 68 { bip(self.pick(&["equal", "less_than", "greater_than_or_equal"]), vec![self.arg(), atom(self.pick(&ATOMS))]) }
-        else if r < 76 { json!({"g": "not", "gs": [call(cx(self.pick(&["q", "r"]), vec![self.arg()]))]}) }
-        else if r < 84 { bip("print", vec![atom(self.pick(&["<", "*", "-"]))]) }
-        else if r < 90 && allow_cut { bip("!", vec![]) }
+            } else { call(cx(&format!("d{}", callee - 1), vec![self.arg()])) }
+        } else if r < 63 { bip("unify", vec![var(self.pick(&VARS)), self.arg()]) }
+        else if r < 71 { bip(self.pick(&["equal", "less_than", "greater_than_or_equal"]), vec![self.arg(), atom(self.pick(&ATOMS))]) }
+        else if r < 80 {
+            let inner = if self.rng.gen_bool(0.7) { call(cx(self.pick(&["q", "r"]), vec![self.arg()])) }
+                        else { and(vec![call(cx("q", vec![self.arg()])), bip("unify", vec![var(self.pick(&VARS)), self.arg()])]) };
+            not(inner)
+        }
+        else if r < 86 { bip("print", vec![atom(self.pick(&["<", "*", "-"]))]) }
+        else if r < 89 { bip("print", vec![var(self.pick(&VARS))]) }      // unbound -> outside the claim; bound -> its value
         else if r < 94 { bip("fail", vec![]) }
-        else { bip("unify", vec![var(self.pick(&VARS)), json!({"k": "list", "a": [self.arg()], "t": []})]) }
+        else { bip("unify", vec![var(self.pick(&VARS)), list(vec![self.arg()])]) }
     }
-    fn body(&mut self, lvl: usize, depth: usize) -> Value {
+    fn body(&mut self, lvl: usize, depth: usize, cut_pct: u32) -> Value {
         let r = self.rng.gen_range(0..100);
-        if depth == 0 || r < 25 { return self.literal(lvl, true); }
+        if depth == 0 || r < 25 { return self.literal(lvl, cut_pct); }
         let n = self.rng.gen_range(2..=3);
         if r < 70 {
-            let gs: Vec<Value> = (0..n).map(|_| if self.rng.gen_bool(0.25) { self.body(lvl, depth - 1) } else { self.literal(lvl, true) }).collect();
-            json!({"g": "and", "gs": gs})
+            and((0..n).map(|_| if self.rng.gen_bool(0.25) { self.body(lvl, depth - 1, cut_pct) } else { self.literal(lvl, cut_pct) }).collect())
         } else {
-            let gs: Vec<Value> = (0..n).map(|_| if self.rng.gen_bool(0.4) { self.body(lvl, depth - 1) } else { self.literal(lvl, true) }).collect();
-            json!({"g": "or", "gs": gs})
+            or((0..n).map(|_| if self.rng.gen_bool(0.4) { self.body(lvl, depth - 1, cut_pct) } else { self.literal(lvl, cut_pct) }).collect())
         }
     }
-    fn program(&mut self) -> (Value, Value) {
+    fn base_facts(&mut self, prog: &mut Vec<Value>) {
+        for a in ATOMS.iter() { if self.rng.gen_bool(0.7) { prog.push(fact(cx("q", vec![atom(a)]))); } }
+        for a in ATOMS.iter() { if self.rng.gen_bool(0.6) { prog.push(fact(cx("r", vec![atom(a)]))); } }
+        for _ in 0..self.rng.gen_range(1..4) { let x = atom(self.pick(&ATOMS)); let y = atom(self.pick(&ATOMS)); prog.push(fact(cx("s", vec![x, y]))); }
+    }
+    fn stratified(&mut self, cut_pct: u32) -> (Value, Value) {
         let mut prog: Vec<Value> = vec![];
-        for a in ATOMS.iter() { if self.rng.gen_bool(0.7) { prog.push(json!({"head": cx("q", vec![atom(a)]), "body": {"g": "nil"}})); } }
-        for a in ATOMS.iter() { if self.rng.gen_bool(0.6) { prog.push(json!({"head": cx("r", vec![atom(a)]), "body": {"g": "nil"}})); } }
-        for _ in 0..self.rng.gen_range(1..4) { let x = atom(self.pick(&ATOMS)); let y = atom(self.pick(&ATOMS)); prog.push(json!({"head": cx("s", vec![x, y]), "body": {"g": "nil"}})); }
+        self.base_facts(&mut prog);
         let levels = self.rng.gen_range(1..=3);
         for lvl in 0..levels {
             for _ in 0..self.rng.gen_range(1..=3) {
                 let head_arg = if self.rng.gen_bool(0.8) { var("$X") } else { atom(self.pick(&ATOMS)) };
-                let body = if self.rng.gen_bool(0.12) { json!({"g": "nil"}) } else { self.body(lvl, 2) };
-                prog.push(json!({"head": cx(&format!("d{}", lvl), vec![head_arg]), "body": body}));
+                let body = if self.rng.gen_bool(0.12) { json!({"g": "nil"}) } else { self.body(lvl, 2, cut_pct) };
+                prog.push(rule(cx(&format!("d{}", lvl), vec![head_arg]), body));
             }
         }
         let qarg = if self.rng.gen_bool(0.8) { var("$Q") } else { atom(self.pick(&ATOMS)) };
         (Value::Array(prog), cx(&format!("d{}", levels - 1), vec![qarg]))
     }
+
+    // ---------------------------------------------------------------- family 1: lists
+    fn list_lib() -> Vec<Value> {
+        let (x, h, t, l, n, m, r) = (var("$X"), var("$H"), var("$T"), var("$L"), var("$N"), var("$M"), var("$R"));
+        vec![
+            fact(cx("mem", vec![x.clone(), list_t(vec![x.clone()], var("$_T"))])),
+            rule(cx("mem", vec![x.clone(), list_t(vec![var("$_H")], t.clone())]), call(cx("mem", vec![x.clone(), t.clone()]))),
+            fact(cx("app", vec![list(vec![]), l.clone(), l.clone()])),
+            rule(cx("app", vec![list_t(vec![h.clone()], t.clone()), l.clone(), list_t(vec![h.clone()], r.clone())]), call(cx("app", vec![t.clone(), l.clone(), r.clone()]))),
+            fact(cx("len", vec![list(vec![]), int(0)])),
+            rule(cx("len", vec![list_t(vec![anon()], t.clone()), n.clone()]),
+                 and(vec![call(cx("len", vec![t.clone(), m.clone()])), bip("unify", vec![n.clone(), func("add", vec![m.clone(), int(1)])])])),
+            fact(cx("rev", vec![list(vec![]), l.clone(), l.clone()])),
+            rule(cx("rev", vec![list_t(vec![h.clone()], t.clone()), l.clone(), r.clone()]), call(cx("rev", vec![t.clone(), list_t(vec![h.clone()], l.clone()), r.clone()]))),
+            fact(cx("last", vec![list(vec![x.clone()]), x.clone()])),
+            rule(cx("last", vec![list_t(vec![anon()], t.clone()), x.clone()]), call(cx("last", vec![t.clone(), x.clone()]))),
+            rule(cx("both", vec![x.clone(), l.clone(), r.clone()]), and(vec![call(cx("mem", vec![x.clone(), l.clone()])), call(cx("mem", vec![x.clone(), r.clone()]))])),
+            rule(cx("cnt", vec![l.clone(), n.clone()]), bip("count", vec![l.clone(), n.clone()])),
+            rule(cx("apb", vec![l.clone(), r.clone(), x.clone()]), bip("append", vec![l.clone(), r.clone(), x.clone()])),
+            rule(cx("pairs", vec![l.clone(), x.clone(), h.clone()]),
+                 and(vec![call(cx("app", vec![var("$_A"), list_t(vec![x.clone(), h.clone()], var("$_B")), l.clone()]))])),
+            rule(cx("nomem", vec![x.clone(), l.clone()]), not(call(cx("mem", vec![x.clone(), l.clone()])))),
+            rule(cx("memcut", vec![x.clone(), l.clone()]), and(vec![call(cx("mem", vec![x.clone(), l.clone()])), bip("!", vec![])])),
+        ]
+    }
+    fn elem(&mut self, depth: usize) -> Value {
+        let r = self.rng.gen_range(0..100);
+        if r < 62 || depth == 0 { atom(self.pick(&ATOMS)) }
+        else if r < 72 { int(self.rng.gen_range(0..4)) }
+        else if r < 82 { list(vec![]) }
+        else if r < 92 { let n = self.rng.gen_range(1..=2); list((0..n).map(|_| self.elem(depth - 1)).collect()) }
+        else { cx("f", vec![atom(self.pick(&ATOMS))]) }
+    }
+    fn ground_list(&mut self, max: usize) -> Value { let n = self.rng.gen_range(0..=max); list((0..n).map(|_| self.elem(1)).collect()) }
+    fn lists(&mut self) -> (Value, Value) {
+        let prog = Self::list_lib();
+        let q = var("$Q"); let w = var("$W");
+        let l1 = self.ground_list(4); let l2 = self.ground_list(3);
+        let e = self.elem(1);
+        let query = match self.rng.gen_range(0..16) {
+            0 => cx("mem", vec![q, l1]),
+            1 => cx("mem", vec![e, l1]),
+            2 => cx("app", vec![l1, l2, q]),
+            3 => cx("app", vec![q, w, l1]),
+            4 => cx("app", vec![q, l2, l1]),
+            5 => cx("len", vec![l1, q]),
+            6 => cx("rev", vec![l1, list(vec![]), q]),
+            7 => cx("last", vec![l1, q]),
+            8 => cx("both", vec![q, l1, l2]),
+            9 => cx("cnt", vec![l1, q]),
+            10 => cx("apb", vec![l1, l2, q]),
+            11 => cx("apb", vec![e, l1, q]),
+            12 => cx("pairs", vec![l1, q, w]),
+            13 => cx("nomem", vec![e, l1]),
+            14 => cx("memcut", vec![q, l1]),
+            _ => cx("mem", vec![list_t(vec![q], w), l1]),
+        };
+        (Value::Array(prog), query)
+    }
+
+    // ---------------------------------------------------------------- family 2: integers
+    fn num_arg(&mut self) -> Value {
+        let r = self.rng.gen_range(0..100);
+        if r < 60 { var(self.pick(&["$X", "$Y"])) } else if r < 68 { var("$Z") } else { int(self.rng.gen_range(-2..5)) }
+    }
+    fn arith(&mut self) -> (Value, Value) {
+        let mut prog: Vec<Value> = vec![];
+        let k = self.rng.gen_range(2..=4);
+        for i in 0..k { prog.push(fact(cx("n", vec![int(self.rng.gen_range(-1..4) + i)]))); }
+        for _ in 0..self.rng.gen_range(1..=3) {
+            let mut gs = vec![call(cx("n", vec![var("$X")]))];
+            if self.rng.gen_bool(0.5) { gs.push(call(cx("n", vec![var("$Y")]))); } else { gs.push(bip("unify", vec![var("$Y"), int(self.rng.gen_range(0..3))])); }
+            for _ in 0..self.rng.gen_range(1..=2) {
+                let r = self.rng.gen_range(0..100);
+                if r < 45 {
+                    let f = self.pick(&["add", "subtract", "multiply"]).to_string();
+                    let a = self.num_arg(); let b = self.num_arg();
+                    let t = if self.rng.gen_bool(0.3) { func(&f, vec![a, b, int(self.rng.gen_range(1..3))]) } else { func(&f, vec![a, b]) };
+                    if self.rng.gen_bool(0.8) { gs.push(bip("unify", vec![var("$Z"), t])); } else { gs.push(bip("unify", vec![t, var("$Z")])); }
+                } else if r < 85 {
+                    let op = self.pick(&["less_than", "less_than_or_equal", "greater_than", "greater_than_or_equal", "equal"]).to_string();
+                    gs.push(bip(&op, vec![self.num_arg(), self.num_arg()]));
+                } else if r < 93 { gs.push(bip("print", vec![var(self.pick(&VARS))])); }
+                else { gs.push(not(bip("less_than", vec![var("$X"), int(self.rng.gen_range(0..3))]))); }
+            }
+            let h = if self.rng.gen_bool(0.5) { cx("v", vec![var("$X"), var("$Z")]) } else { cx("v", vec![var("$Y"), var("$X")]) };
+            prog.push(rule(h, and(gs)));
+        }
+        let query = if self.rng.gen_bool(0.7) { cx("v", vec![var("$Q"), var("$W")]) } else { cx("v", vec![int(self.rng.gen_range(0..3)), var("$W")]) };
+        (Value::Array(prog), query)
+    }
+
+    // ---------------------------------------------------------------- family 3: structured heads
+    fn sterm(&mut self, depth: usize) -> Value {
+        let r = self.rng.gen_range(0..100);
+        if r < 30 { var(self.pick(&VARS)) }
+        else if r < 55 || depth == 0 { atom(self.pick(&ATOMS)) }
+        else if r < 60 { anon() }
+        else if r < 75 { cx("f", vec![self.sterm(depth - 1)]) }
+        else if r < 82 { cx("g", vec![self.sterm(depth - 1), self.sterm(depth - 1)]) }
+        else if r < 90 { let n = self.rng.gen_range(0..=2); list((0..n).map(|_| self.sterm(depth - 1)).collect()) }
+        else { let t = if self.rng.gen_bool(0.7) { var(self.pick(&VARS)) } else { anon() }; list_t(vec![self.sterm(depth - 1)], t) }
+    }
+    fn structured(&mut self) -> (Value, Value) {
+        let mut prog: Vec<Value> = vec![];
+        self.base_facts(&mut prog);
+        for _ in 0..self.rng.gen_range(2..=4) { let a = self.sterm(2); let b = self.sterm(1); prog.push(fact(cx("e", vec![a, b]))); }
+        for _ in 0..self.rng.gen_range(1..=3) {
+            let h = cx("k", vec![self.sterm(1), self.sterm(1)]);
+            let n = self.rng.gen_range(1..=3);
+            let gs: Vec<Value> = (0..n).map(|_| {
+                let r = self.rng.gen_range(0..100);
+                if r < 50 { let a = self.sterm(1); let b = self.sterm(1); call(cx("e", vec![a, b])) }
+                else if r < 70 { call(cx(self.pick(&["q", "r"]), vec![self.sterm(0)])) }
+                else if r < 88 { let a = self.sterm(1); let b = self.sterm(1); bip("unify", vec![a, b]) }
+                else { let a = self.sterm(1); let b = self.sterm(1); not(call(cx("e", vec![a, b]))) }
+            }).collect();
+            prog.push(rule(h, if gs.len() == 1 { gs[0].clone() } else { and(gs) }));
+        }
+        let qa = if self.rng.gen_bool(0.6) { var("$Q") } else { self.sterm(1) };
+        let qb = if self.rng.gen_bool(0.6) { var("$W") } else { self.sterm(1) };
+        let f = if self.rng.gen_bool(0.75) { "k" } else { "e" };
+        (Value::Array(prog), cx(f, vec![qa, qb]))
+    }
+
+    fn program(&mut self) -> (usize, Value, Value) {
+        let fam = match self.rng.gen_range(0..100) { 0..=29 => 0, 30..=49 => 1, 50..=64 => 2, 65..=84 => 3, _ => 4 };
+        let (p, q) = match fam { 0 => self.stratified(5), 1 => self.lists(), 2 => self.arith(), 3 => self.structured(), _ => self.stratified(22) };
+        (fam, p, q)
+    }
+}
+
+const EVENT_BUDGET: usize = 2500;
+
+/// Records one run: returns the trace lines after the `program` record.
+fn record_run(prog: &Value, query: &Value) -> Vec<String> {
+    let kb = build_kb(prog);
+    start_query();
+    let qt = tm_from_json(query);
+    let qterms: Vec<Unifiable> = match build(&qt) { Unifiable::SComplex(v) => v, _ => vec![] };
+    let q = make_query(qterms);
+    let mut lines: Vec<String> = vec![];
+    let sn = make_base_node(std::rc::Rc::new(q.clone()), &kb);
+    let args: Vec<Tm> = match &q { Goal::ComplexGoal(Unifiable::SComplex(v)) => v[1..].iter().map(project).collect(), _ => vec![] };
+    suiron::verif_hooks::take_events();
+    capture::take();
+    let mut asks = 0; let mut nones = 0; let mut events = 0;
+    while nones < 2 {
+        if asks >= 40 || events > EVENT_BUDGET { lines.push(json!({"e": "truncated"}).to_string()); break; }
+        asks += 1;
+        lines.push(json!({"e": "ask"}).to_string());
+        suiron::verif_hooks::record(true);
+        let r = std::panic::catch_unwind(std::panic::AssertUnwindSafe(|| next_solution(std::rc::Rc::clone(&sn)).map(|s| (*s).clone())));
+        suiron::verif_hooks::record(false);
+        let out_text = capture::take();
+        let evs = suiron::verif_hooks::take_events();
+        events += evs.len();
+        if evs.len() > EVENT_BUDGET {            // one request alone is over the budget: keep its prefix
+            lines.extend(evs.into_iter().take(EVENT_BUDGET));
+            lines.push(json!({"e": "truncated"}).to_string());
+            break;
+        }
+        lines.extend(evs);
+        match r {
+            Ok(Some(ss)) => {
+                let ans = canon(&args.iter().map(|t| resolve(t, &ss)).collect::<Vec<_>>());
+                if ans.iter().any(|t| contains_bad(t, "")) {
+                    // the answer cannot be projected (a cyclic binding, a malformed list): recorded as it is
+                    lines.push(json!({"e": "ret", "some": true, "ans": [{"k": "atom", "s": "<unprojectable answer>"}], "out": out_text}).to_string());
+                } else {
+                    lines.push(json!({"e": "ret", "some": true, "ans": ans.iter().map(tm_to_json).collect::<Vec<_>>(), "out": out_text}).to_string());
+                }
+            }
+            Ok(None) => { nones += 1; lines.push(json!({"e": "ret", "some": false, "ans": [], "out": out_text}).to_string()); }
+            Err(e) => {
+                let msg = e.downcast_ref::<String>().cloned().or_else(|| e.downcast_ref::<&str>().map(|s| s.to_string())).unwrap_or_default();
+                lines.push(json!({"e": "panic", "msg": msg, "out": out_text}).to_string());
+                break;
+            }
+        }
+    }
+    lines
+}
+
+fn run_seed(seed: u64, idx: usize) -> u64 { seed.wrapping_mul(1_000_003).wrapping_add(idx as u64 * 7919 + 17) }
+
+/// gen-trace-worker <out.ndjson> <seed> <start> <end>: appends runs start..end
+pub fn worker(out: &str, seed: u64, start: usize, end: usize) -> i32 {
+    capture::install();
+    crate::syntax::install_panic_hook();
+    let progress = Arc::new(AtomicUsize::new(0));
+    let p2 = Arc::clone(&progress);
+    std::thread::spawn(move || {
+        let mut last = usize::MAX; let mut still = 0u64;
+        loop {
+            std::thread::sleep(std::time::Duration::from_millis(500));
+            let cur = p2.load(Ordering::SeqCst);
+            if cur == last { still += 1; } else { still = 0; last = cur; }
+            if still >= 40 { std::process::exit(3); }      // 20 s without finishing a run
+        }
+    });
+    let out = out.to_string();
+    let h = std::thread::Builder::new().stack_size(256 << 20).spawn(move || {
+        let mut f = std::fs::OpenOptions::new().append(true).create(true).open(&out).unwrap();
+        for idx in start..end {
+            let mut g = Gen { rng: StdRng::seed_from_u64(run_seed(seed, idx)) };
+            let (fam, prog, query) = g.program();
+            writeln!(f, "{}", json!({"e": "program", "run": idx, "family": fam, "prog": prog, "query": query})).unwrap();
+            f.flush().unwrap();
+            let lines = record_run(&prog, &query);
+            for l in lines { writeln!(f, "{}", l).unwrap(); }
+            f.flush().unwrap();
+            progress.fetch_add(1, Ordering::SeqCst);
+        }
+    }).unwrap();
+    match h.join() { Ok(_) => 0, Err(_) => 4 }
 }
 
 /// gen-trace <out.ndjson> <seed> <runs>
 pub fn main(out: &str, seed: u64, runs: usize) -> i32 {
+    let _ = std::fs::remove_file(out);
+    std::fs::File::create(out).unwrap();
+    let exe = std::env::current_exe().unwrap();
+    let mut start = 0usize;
+    let mut deaths = 0;
+    while start < runs {
+        let status = std::process::Command::new(&exe)
+            .args(["gen-trace-worker", out, &seed.to_string(), &start.to_string(), &runs.to_string()])
+            .stdout(std::process::Stdio::null())
+            .status().expect("spawn gen-trace worker");
+        if status.success() { break; }
+        // the worker died in the middle of a run: the last `program` record has no complete run after it
+        let text = std::fs::read_to_string(out).unwrap_or_default();
+        let mut last_run: Option<usize> = None; let mut last_pos = 0usize; let mut pos = 0usize;
+        for l in text.split_inclusive('\n') {
+            if l.starts_with("{\"e\":\"program\"") {
+                if let Ok(v) = serde_json::from_str::<Value>(l.trim_end()) { last_run = v["run"].as_u64().map(|x| x as usize); last_pos = pos; }
+            }
+            pos += l.len();
+        }
+        let how = match status.code() { Some(3) => "hang", _ => "crash" };
+        match last_run {
+            Some(r) => {
+                // keep the program record only (a partial run may have been flushed), then the death event
+                let keep_to = last_pos + text[last_pos..].find('\n').map(|i| i + 1).unwrap_or(text.len() - last_pos);
+                let mut f = std::fs::File::create(out).unwrap();
+                f.write_all(text[..keep_to].as_bytes()).unwrap();
+                writeln!(f, "{}", json!({"e": how, "status": format!("{:?}", status)})).unwrap();
+                start = r + 1;
+            }
+            None => { eprintln!("gen-trace: worker died before writing a run: {:?}", status); return 2; }
+        }
+        deaths += 1;
+        if deaths > 200 { eprintln!("gen-trace: too many worker deaths"); return 2; }
+    }
+    let n = std::fs::read_to_string(out).unwrap_or_default().lines().filter(|l| l.starts_with("{\"e\":\"program\"")).count();
+    eprintln!("gen-trace: {} runs written ({} worker deaths)", n, deaths);
+    0
+}
+
+/// record <program.json> <out.ndjson>: records the run of one given program and query
+pub fn record_one(program: &str, out: &str) -> i32 {
     capture::install();
     crate::syntax::install_panic_hook();
-    let mut g = Gen { rng: StdRng::seed_from_u64(seed) };
-    let mut f = std::io::BufWriter::new(std::fs::File::create(out).unwrap());
-    let mut done = 0;
-    let mut attempts = 0;
-    while done < runs && attempts < runs * 20 {
-        attempts += 1;
-        let (prog, query) = g.program();
-        let kb = build_kb(&prog);
-        start_query();
-        let qt = tm_from_json(&query);
-        let qterms: Vec<Unifiable> = match build(&qt) { Unifiable::SComplex(v) => v, _ => vec![] };
-        let q = make_query(qterms);
-        // record: ask / engine events / ret, until "no more" and once more
-        let mut lines: Vec<String> = vec![json!({"e": "program", "prog": prog, "query": query}).to_string()];
-        let sn_goal = q.clone();
-        let mut asks = 0; let mut nones = 0; let mut events = 0; let mut ok = true;
-        let sn = make_base_node(std::rc::Rc::new(sn_goal.clone()), &kb);
-        let args: Vec<Tm> = match &sn_goal { Goal::ComplexGoal(Unifiable::SComplex(v)) => v[1..].iter().map(project).collect(), _ => vec![] };
-        suiron::verif_hooks::take_events();
-        capture::take();
-        while nones < 2 && asks < 40 {
-            asks += 1;
-            lines.push(json!({"e": "ask"}).to_string());
-            suiron::verif_hooks::record(true);
-            let r = std::panic::catch_unwind(std::panic::AssertUnwindSafe(|| next_solution(std::rc::Rc::clone(&sn)).map(|s| (*s).clone())));
-            suiron::verif_hooks::record(false);
-            let out_text = capture::take();
-            let evs = suiron::verif_hooks::take_events();
-            events += evs.len();
-            if events > 3000 { ok = false; break; }             // over budget: discard, never flag
-            lines.extend(evs);
-            match r {
-                Ok(Some(ss)) => {
-                    let ans = canon(&args.iter().map(|t| resolve(t, &ss)).collect::<Vec<_>>());
-                    lines.push(json!({"e": "ret", "some": true, "ans": ans.iter().map(tm_to_json).collect::<Vec<_>>(), "out": out_text}).to_string());
-                }
-                Ok(None) => { nones += 1; lines.push(json!({"e": "ret", "some": false, "ans": [], "out": out_text}).to_string()); }
-                Err(_) => { ok = false; break; }                 // a panic: outside the fragment generated here (reported by the replay checks)
-            }
-        }
-        if !ok || nones < 2 { continue; }
-        let _ = run_query;   // (shared helpers live in solve.rs)
-        for l in lines { writeln!(f, "{}", l).unwrap(); }
-        done += 1;
-    }
-    f.flush().unwrap();
-    eprintln!("gen-trace: {} runs written ({} attempts)", done, attempts);
-    0
+    let v: Value = serde_json::from_str(&std::fs::read_to_string(program).expect("program file")).expect("program json");
+    let (prog, query) = (v["prog"].clone(), v["query"].clone());
+    let out = out.to_string();
+    let h = std::thread::Builder::new().stack_size(256 << 20).spawn(move || {
+        let mut f = std::fs::File::create(&out).unwrap();
+        writeln!(f, "{}", json!({"e": "program", "run": 0, "family": -1, "prog": prog, "query": query})).unwrap();
+        f.flush().unwrap();
+        for l in record_run(&prog, &query) { writeln!(f, "{}", l).unwrap(); }
+    }).unwrap();
+    match h.join() { Ok(_) => 0, Err(_) => 4 }
 }
